@@ -1136,6 +1136,7 @@ func init() {
 		c19Forwarding(s, e)
 		// round 5c: every non-pure call of the file, per function and branch
 		c19EmitCallTable(s, e, f)
+		c19EmitBreakerGate(s, e)
 
 		for _, l := range []struct{ file, lean string }{{"core/stores/redis/lockscript.lua", "lockLua"}, {"core/stores/redis/delscript.lua", "delLua"}} {
 			raw, err := os.ReadFile(filepath.Join(*repo, l.file))
@@ -1528,4 +1529,49 @@ func c19EmitCallTable(s *source, e *emitter, rel string) {
 		e.printf("\n  (%s, [%s], %d, %s, [%s])", leanString(r.fn), strings.Join(cs, ", "), r.kind, leanString(r.name), strings.Join(as, ", "))
 	}
 	e.printf("]\n\n")
+}
+
+// C19 round 5c: go-zero's breaker hook in front of every Redis command: the select of
+// circuitBreaker.DoWithAcceptableCtx as (case, statements) pairs and the statements of breakerHook.ProcessHook's closure.
+func c19EmitBreakerGate(s *source, e *emitter) {
+	pairs := [][2]string{}
+	if fd := s.findFunc("core/breaker/breaker.go", "circuitBreaker.DoWithAcceptableCtx"); fd == nil || len(fd.Body.List) != 1 {
+		e.errors = append(e.errors, "circuitBreaker.DoWithAcceptableCtx: not found or not a single statement")
+	} else if sel, ok := fd.Body.List[0].(*ast.SelectStmt); !ok {
+		e.errors = append(e.errors, "circuitBreaker.DoWithAcceptableCtx: body is not one select")
+	} else {
+		for _, cl := range sel.Body.List {
+			cc := cl.(*ast.CommClause)
+			comm := "default"
+			if cc.Comm != nil {
+				comm = strings.Join(strings.Fields(s.src(cc.Comm)), " ")
+			}
+			var body []string
+			for _, st := range cc.Body {
+				body = append(body, strings.Join(strings.Fields(s.src(st)), " "))
+			}
+			pairs = append(pairs, [2]string{comm, strings.Join(body, " ; ")})
+		}
+	}
+	e.printf("/-- the select of `circuitBreaker.DoWithAcceptableCtx` (core/breaker/breaker.go): (case, statements) in source order -/\ndef breakerSelect : List (String × String) := [")
+	for i, p := range pairs {
+		if i > 0 {
+			e.printf(", ")
+		}
+		e.printf("(%s, %s)", leanString(p[0]), leanString(p[1]))
+	}
+	e.printf("]\n\n")
+	body := []string{}
+	if fd := s.findFunc("core/stores/redis/breakerhook.go", "breakerHook.ProcessHook"); fd == nil {
+		e.errors = append(e.errors, "breakerHook.ProcessHook not found")
+	} else {
+		ast.Inspect(fd.Body, func(n ast.Node) bool {
+			if fl, ok := n.(*ast.FuncLit); ok && len(body) == 0 {
+				flatStmts(s, fl.Body.List, &body)
+				return false
+			}
+			return true
+		})
+	}
+	e.stringList("breakerProcessHook", "statements of the closure returned by breakerHook.ProcessHook", body)
 }
